@@ -22,7 +22,7 @@ import operator
 
 import z3
 
-from .sym import (Sym, SInt, SBool, SReal, SBuf, SOpaque, Blob, Unsupported, Infeasible, tz_of,
+from .sym import (Sym, SInt, SBool, SReal, SBuf, SOpaque, SIPStr, Blob, Unsupported, Infeasible, tz_of,
                   mk_int, mk_bool, mk_real, int_term, real_term, bool_term, is_sym,
                   is_intlike, is_reallike, bits_of, int_bitop, py_floordiv_term, py_mod_term,
                   buf_of, is_buflike, _mask_upto)
@@ -168,6 +168,8 @@ def pytype_of(v):
         return bytearray if v.mutable else bytes
     if isinstance(v, SOpaque):
         return v.pytype
+    if isinstance(v, SIPStr):
+        return str
     return type(v)
 
 class Config(object):
@@ -252,6 +254,8 @@ class Interp(object):
             if isinstance(n, int):
                 return n != 0
             return mk_bool(z3.simplify(n != 0))
+        if isinstance(v, SIPStr):
+            return True
         if isinstance(v, SOpaque):
             raise Unsupported("truth value of opaque value")
         if v is None or isinstance(v, (bool, int, float, str, bytes, bytearray, list, tuple, dict, set, frozenset)):
@@ -284,6 +288,15 @@ class Interp(object):
                 if ba is None or bb is None:
                     return False
                 return bufops.equal(self.ctx, ba, bb)
+            if isinstance(a, SIPStr) or isinstance(b, SIPStr):
+                oa = a.octets if isinstance(a, SIPStr) else self.models.ip_octets(b)
+                ob = b.octets if isinstance(b, SIPStr) else self.models.ip_octets(a)
+                if oa is None or ob is None:
+                    return False
+                acc = True
+                for x, y in zip(oa, ob):
+                    acc = self.and_(acc, self.eq(x, y))
+                return acc
             if isinstance(a, SOpaque) or isinstance(b, SOpaque):
                 if isinstance(a, SOpaque) and isinstance(b, SOpaque) and a.t.sort() == b.t.sort():
                     return mk_bool(z3.simplify(a.t == b.t))
@@ -983,12 +996,25 @@ class Interp(object):
         frame = Frame(func=func, globs=func.__globals__, defclass=defclass, freevars=freevars)
         if defclass is None and '__class__' in freevars:
             frame.defclass = freevars['__class__']
-        defaults = list(func.__defaults__ or ())
-        kwdefaults = dict(func.__kwdefaults__ or {})
+        defaults = [self._path_default(d) for d in (func.__defaults__ or ())]
+        kwdefaults = dict((k, self._path_default(d)) for k, d in (func.__kwdefaults__ or {}).items())
         self.bind_args(node.args, frame, args, kwargs, defaults, kwdefaults, func.__name__)
         if args:
             frame.self_obj = args[0]
         return self.run_body(node, frame, getattr(func, '__qualname__', func.__name__))
+
+    def _path_default(self, d):
+        """mutable default arguments are shared between calls *within* one
+        execution (Python semantics) but must not leak between explored paths:
+        each path works on its own copy, made on first use"""
+        if isinstance(d, (list, dict, set)) and type(d) in (list, dict, set):
+            clones = self.ctx.__dict__.setdefault('default_clones', {})
+            ent = clones.get(id(d))
+            if ent is None or ent[0] is not d:
+                ent = (d, type(d)(d))
+                clones[id(d)] = ent
+            return ent[1]
+        return d
 
     def call_closure(self, clo, args, kwargs):
         frame = Frame(func=None, globs=clo.frame.globals, parent=clo.frame, defclass=clo.frame.defclass)
